@@ -60,7 +60,13 @@ func Create() *Builder {
 // Interface 指定接口类型的变量定义
 // iFace 必须是指针类型, 比如 i 为 interface 类型变量, iFace 传递&i
 func (b *Builder) Interface(iFace interface{}) *CachedInterfaceMocker {
-	mKey := reflect.TypeOf(iFace).String()
+	// 接口 mocker 和接口变量一一对应, 以变量的类型和地址作为缓存的 key
+	// (类型的 String() 不唯一, 且同一类型的不同变量需要各自独立 mock)
+	iFaceValue := reflect.ValueOf(iFace)
+	mKey := ifaceMockerKey{typ: iFaceValue.Type()}
+	if iFaceValue.Kind() == reflect.Ptr {
+		mKey.ptr = iFaceValue.Pointer()
+	}
 	if mocker, ok := b.mockers[mKey]; ok && !mocker.Canceled() {
 		b.reset2CurPkg()
 		return mocker.(*CachedInterfaceMocker)
@@ -75,6 +81,12 @@ func (b *Builder) Interface(iFace interface{}) *CachedInterfaceMocker {
 	return cachedMocker
 }
 
+// ifaceMockerKey 接口 mocker 的缓存 key
+type ifaceMockerKey struct {
+	typ reflect.Type
+	ptr uintptr
+}
+
 // cache 添加到缓存
 func (b *Builder) cache(mKey interface{}, cachedMocker Mocker) {
 	b.mockers[mKey] = cachedMocker
@@ -83,7 +95,8 @@ func (b *Builder) cache(mKey interface{}, cachedMocker Mocker) {
 // Struct 指定结构体实例
 // 比如需要 mock 结构体函数 (*conn).Write(b []byte)，则 name="conn"
 func (b *Builder) Struct(instance interface{}) *CachedMethodMocker {
-	mKey := reflect.ValueOf(instance).Type().String()
+	// 以类型本身作为缓存的 key, 类型的 String() 不唯一(不同包下的同名类型)
+	mKey := reflect.ValueOf(instance).Type()
 	if mocker, ok := b.mockers[mKey]; ok && !mocker.Canceled() {
 		b.reset2CurPkg()
 		return mocker.(*CachedMethodMocker)
